@@ -57,7 +57,7 @@ pub fn to_raw(s: &Searcher) -> RawSearcher {
 /// 128-bit slim Teddy.
 pub fn from_parts(
     kind: u8,
-    by_id: &'static [&'static [u8]],
+    by_id: Vec<Vec<u8>>,
     order: &'static [u32],
     patterns_minimum_len: usize,
     rk_buckets: &'static [&'static [rv::Entry]; 64],
